@@ -13,6 +13,18 @@ CLAIMED = {
           'and an oracle written from the standards\' tables turns any break into a concrete replay.'),
     note='Trusted: Coq kernel + vm_compute; Prims.v models of bitarray indexing/slicing/int2ba (L0-tested); hand model faithfulness is differential (exhaustive |n|<=300 / all bit strings <=7 bits in quick; 5000 / 12 in thorough). msb0 only; lsb0 refusal is oracle-checked.',
     technique='Coq proof (induction over positive/list) + vm_compute correspondence', design='§5 C10'),
+ 'C01': dict(
+    text=('Coq theorems over the model of Bits.__getitem__/__add__/__radd__/__mul__/_imul/__iter__/__len__/__bool__: + is list append whichever operand is copied, the result class is the left operand\'s, '
+          'the doubling loop of * yields exactly n copies for every n>=0 (loop invariant, fuel bound proved), negative n raises ValueError, iteration yields the bits, out-of-range index raises IndexError; '
+          'indexing/slicing are Python sequence semantics (Prims.seq_slice, itself compared with CPython slicing). Tied to /repo by vm_compute correspondence over four classes, nine construction routes and promotable operands; a str-model oracle gives the replay.'),
+    note='Trusted: Coq kernel; bitarray slicing modelled as Python list slicing (L0-tested each run); hand model tied by differential correspondence (exhaustive (start,stop,step) for lengths<=5 quick / 7 thorough). msb0 only (lsb0 is C12); file-backed stores are C08.',
+    technique='Coq proof (loop invariant, list induction) + vm_compute correspondence', design='§5 C01'),
+ 'C16': dict(
+    text=('Coq theorems over the model of & | ^ ~ << >> and their in-place forms: pointwise boolean function with fixed length, ValueError on length mismatch, Error for ~ of empty, '
+          'shift semantics incl. n>=len and errors, in-place shifts equal pure shifts, the same-object shortcut is sound, ~~s=s, s^s=0, De Morgan, and agreement with Z.land/Z.lor/Z.lxor/Z.lnot/shift on the unsigned value masked to len bits. '
+          'Tied to /repo by vm_compute correspondence; an integer-arithmetic oracle (operands unchanged, result class, stream positions) gives the replay.'),
+    note='Trusted: Coq kernel; bitarray element-wise operators modelled as map2 (exercised by the same cases); hand model tied by differential correspondence.',
+    technique='Coq proof (list induction, Z.testbit) + vm_compute correspondence', design='§5 C16'),
 }
 
 def main():
